@@ -425,7 +425,14 @@ func (s *Netceptor) DialContext(ctx context.Context, node string, service string
 			_ = qs.Close()
 			_ = pc.Close()
 		case <-doneChan:
-			return
+			// Close() or CloseConnection() was called on the Conn. The ephemeral packet connection made for
+			// this dial is still needed until the QUIC connection itself is gone, and must be released then:
+			// nobody else will, and its service name, goroutines and subscriptions would stay for good.
+			select {
+			case <-qc.Context().Done():
+			case <-s.context.Done():
+			}
+			_ = pc.Close()
 		}
 	}()
 	conn := &Conn{
